@@ -44,9 +44,11 @@ StateFails(idx, o) ==
 ShapeOk(o) == Len(o.regs) = NLeaf + Len(Prog(o.law, o.p, o.q)) /\ Len(o.pairs) = Len(Pairs(o.law)) /\ Len(o.herr) = Len(Prog(o.law, o.p, o.q)) /\ Len(o.hcond) = Len(o.herr)
 
 (* ---- T ---- *)
+\* (table mode: whether a product of two coefficients is exactly 1 is not known to the model - "is the coefficient 1" is
+\*  compared only when the model says so for all operands, i.e. m.c1)
 Match(m, o, exact) ==
   IF ~IsUnit(m) THEN ~IsUnit(o)
-  ELSE /\ IsUnit(o) /\ m.ex = o.ex /\ m.dim = o.dim /\ m.off = o.off /\ m.reg = o.reg /\ m.c1 = o.c1
+  ELSE /\ IsUnit(o) /\ m.ex = o.ex /\ m.dim = o.dim /\ m.off = o.off /\ m.reg = o.reg /\ ((exact \/ m.c1) => m.c1 = o.c1)
        /\ m.neg = o.neg
        /\ exact => (m.clg = o.clg /\ m.lg = o.lg)
 \* _multiply_units(u, v): (u*v).simplify() ; on SymbolNotFoundError (v*u).simplify() ; then as_coeff_unit
@@ -87,7 +89,7 @@ TStep(W, k) ==
 TPair(W, x) ==
   LET pr == W.pairs[x] a == W.regs[pr.i] b == W.regs[pr.j] IN
   (IsUnit(a) /\ IsUnit(b)) =>
-    /\ W.exact => (pr.eq = UEq(a, b) /\ pr.eqr = UEq(b, a) /\ pr.same = SameExpr(a, b))
+    /\ W.exact => (pr.eq = UEq(a, b) /\ pr.eqr = UEq(b, a) /\ (pr.same => SameExpr(a, b)))   \* (1.0*x and x are different sympy expressions)
     \* (one direction only: different expressions may collide - hash(-1) = hash(-2) makes la**2/ta and la**2/ta**2 collide)
     /\ (a.rs = b.rs /\ pr.same) => pr.heq
 \* leaves themselves are in sync with their registry (construction from a string: C02/C14 territory, so T only)
